@@ -147,3 +147,16 @@ PROPS["C17"] = {
     ],
     "assumptions": ["in the concurrent plans no thread calls ClearCache or rebinds a name another thread reads (the premise of C17_noninterference)"],
 }
+
+PROPS["C18"] = {
+    "n": {"quick": 500, "thorough": 10000},
+    "per_shard": 150,
+    "corr_targets": ["Corr/DocTemplateCorr.vo"],
+    "corr": "Corr/DocTemplateCorr.v: Model.DocTemplate.render_paragraph on the runs of a paragraph (formatting as atoms, text bytes, other content) vs the runs of the paragraph after TemplateEngine.RenderTemplateToDocument, read as formatted characters and anchors",
+    "trusted_base": [
+        "Model/DocTemplate.v is hand-written from template.go (renderParagraph, applyParaEdits); find_vars / find_conds mirror the engine's regular expressions on bytes",
+        "Gen/CloneFields.v regenerated from template.go on every run (declared vs copied fields per clone function)",
+        "whole documents (tables, nested tables, loop rows, merged cells, page breaks, paragraph/section formatting, headers/footers, pictures) are covered by the oracle: reference substitution on the deep dump of the base document at the granularity of single characters; every other part compared byte-wise",
+    ],
+    "assumptions": ["placeholders inside running-text loops ({{#each}} within one paragraph) are not generated"],
+}
